@@ -751,7 +751,7 @@ func (fr *Frame) enterLoop(lp *Loop, ins []edgeIn) (*State, string) {
 			if eff.ranges[g] {
 				s1.ghost[g] = c.smt.declareFresh(g, c.ghostSorts[g])
 			}
-		} else if eff.all || eff.ghost[g] {
+		} else if eff.all || eff.ghost[g] || strings.HasPrefix(g, "lastres.") {
 			s1.ghost[g] = c.smt.declareFresh(g, c.ghostSorts[g])
 		}
 	}
